@@ -384,6 +384,12 @@ func (e *Engine) assertObligation(st *State, name string, c *Term) {
 				e.res.Discharged++
 				e.res.Trivial++
 			}
+		} else if c.isFalse() && len(e.res.Violations) >= e.maxViol {
+			// constant-false on a feasible path, and the sample of recorded counterexamples is full
+			if owns {
+				e.res.Obligations++
+				e.res.ViolCount++
+			}
 		} else {
 			nc := mkNot(c)
 			e.solver.Push()
